@@ -1,1 +1,60 @@
-pub fn run() -> Vec<String> { Vec::new() }
+//! C15: equality, hashing and hash-map lookup of `&dyn KeyObj` across families of types with identical representation.
+use std::collections::hash_map::DefaultHasher;
+use std::collections::HashMap;
+use std::hash::{Hash, Hasher};
+use std::rc::Rc;
+use std::sync::Arc;
+
+use serde_json::json;
+
+use pie::trait_object::KeyObj;
+
+use crate::types::{Res, Tk, ZA, ZB};
+
+#[derive(Clone, Copy, PartialEq, Eq, Hash, Debug)]
+struct NewU(u32);
+#[derive(Clone, Copy, PartialEq, Eq, Hash, Debug)]
+struct ZC;
+
+fn h(k: &dyn KeyObj) -> u64 { let mut s = DefaultHasher::new(); k.hash(&mut s); s.finish() }
+
+pub fn run() -> Vec<String> {
+  let mut keys: Vec<(String, u32, Box<dyn KeyObj>)> = Vec::new();
+  for v in 1..=2u32 {
+    keys.push(("TA".into(), v, Box::new(Tk::<0>(v))));
+    keys.push(("TB".into(), v, Box::new(Tk::<1>(v))));
+    keys.push(("BoxTA".into(), v, Box::new(Box::new(Tk::<0>(v)))));
+    keys.push(("RcTA".into(), v, Box::new(Rc::new(Tk::<0>(v)))));
+    keys.push(("ArcTA".into(), v, Box::new(Arc::new(Tk::<0>(v)))));
+    keys.push(("VRes".into(), v, Box::new(Res::<0>(v))));
+    keys.push(("WRes".into(), v, Box::new(Res::<1>(v))));
+    keys.push(("u32".into(), v, Box::new(v)));
+    keys.push(("NewU".into(), v, Box::new(NewU(v))));
+    keys.push(("tuple".into(), v, Box::new((v,))));
+    // equal keys constructed a second time
+    keys.push(("TA".into(), v, Box::new(Tk::<0>(v))));
+  }
+  keys.push(("ZA".into(), 0, Box::new(ZA)));
+  keys.push(("ZB".into(), 0, Box::new(ZB)));
+  keys.push(("ZC".into(), 0, Box::new(ZC)));
+  keys.push(("unit".into(), 0, Box::new(())));
+  keys.push(("ZA".into(), 0, Box::new(ZA)));
+  let mut lines = Vec::new();
+  lines.push(json!({"ev":"reset","suite":"keys"}).to_string());
+  for (i, (ty, v, _)) in keys.iter().enumerate() { lines.push(json!({"ev":"keydef","i":i + 1,"ty":ty,"v":v}).to_string()); }
+  for (i, (_, _, a)) in keys.iter().enumerate() {
+    for (j, (_, _, b)) in keys.iter().enumerate() {
+      let eq = a.as_ref() == b.as_ref();
+      let eq_box = *a == *b.as_ref();
+      lines.push(json!({"ev":"keycmp","a":i + 1,"b":j + 1,"eq":eq,"eq_box":eq_box,"hash_eq":h(a.as_ref()) == h(b.as_ref())}).to_string());
+    }
+  }
+  // hash-map lookup by trait object: every key finds the first inserted key equal to it
+  let mut map: HashMap<Box<dyn KeyObj>, usize> = HashMap::new();
+  for (i, (_, _, k)) in keys.iter().enumerate() { map.entry(k.clone()).or_insert(i + 1); }
+  for (i, (_, _, k)) in keys.iter().enumerate() {
+    lines.push(json!({"ev":"keymap","a":i + 1,"found":map.get(k.as_ref()).copied().unwrap_or(0),"size":map.len()}).to_string());
+  }
+  lines.push(json!({"ev":"end"}).to_string());
+  lines
+}
